@@ -27,7 +27,7 @@ Proof. apply Z.eqb_refl. Qed.
 
 Lemma run_model_spec c : valid c -> run_model c = run_spec (cC c) (cO c) (cT c).
 Proof.
-  unfold valid, validb. intros Hv. apply andb_true_iff in Hv as [Hv Hy]. apply andb_true_iff in Hv as [Hv He].
+  unfold valid, validb. intros Hv. apply andb_true_iff in Hv as [Hv Hy].
   apply variants_eqb_eq in Hv.
   pose proof (compile_spec (cV c) (cC c) model_H (table_fun (o_render (cO c))) (table_fun (o_yload (cO c)))
                 (table_fun (o_match (cO c))) (cT c) (cPv c)) as S.
@@ -35,8 +35,7 @@ Proof.
   change (run_model c) with (result_data (compile (cV c) (cC c) model_H (table_fun (o_render (cO c)))
             (table_fun (o_yload (cO c))) (table_fun (o_match (cO c))) (cT c) (cPv c) empty_item)).
   rewrite Hv, S.
-  unfold spec_result, run_spec. unfold run_empty_case in He. apply negb_true_iff in He. rewrite He.
-  now rewrite andb_false_r.
+  unfold spec_result, run_spec. reflexivity.
 Qed.
 
 Lemma holds_model c : valid c -> holds c (run_model c) = [].
